@@ -30,7 +30,7 @@ type c08Params struct {
 func (c08) ID() string    { return "C08" }
 func (c08) Level() string { return "exploration" }
 func (c08) Rule() string {
-	return "for every legal flow (client role: ECC, ECC with CertificateRequest, ECDHE, resumed; server role: ECC, ECC with client certificate, ECC with empty certificate, ECDHE, resumed) on both stacks: the unedited flow (control, must complete) and ALL single edits - omit, repeat, transpose adjacent, insert any kind of the alphabet (all handshake kinds, ChangeCipherSpec, warning alert, application data) at any position - plus runs of 16 and 17 warning alerts; thorough adds seeded double and triple edits. The scripted peer keeps transcript and keys consistent with what it sent. Oracle: the real endpoint completes iff a prefix of the received kinds (warning alerts within the tolerance removed) is exactly a legal flow. distinct = distinct (stack, role, flow, sequence); non-trivial = the edited part was delivered before the endpoint finished"
+	return "for every legal flow (client role: ECC, ECC with CertificateRequest, ECDHE, resumed; server role: ECC, ECC with client certificate, ECC with empty certificate, ECDHE, resumed) on both stacks: the unedited flow (control, must complete) and ALL single edits - omit, repeat, transpose adjacent, insert any kind of the alphabet (all handshake kinds, ChangeCipherSpec, warning alert, application data with and without payload) at any position - plus runs of 16 and 17 warning alerts; thorough adds seeded double and triple edits. The scripted peer keeps transcript and keys consistent with what it sent. Oracle: the real endpoint completes iff a prefix of the received kinds (warning alerts within the tolerance removed) is exactly a legal flow. distinct = distinct (stack, role, flow, sequence); non-trivial = the edited part was delivered before the endpoint finished"
 }
 func (c08) Components() (real, stub []string) {
 	return []string{"tlcp/dtlcp client and server state machines (instrumented)", "session cache (resumed flows)"},
@@ -53,7 +53,7 @@ var c08ServerFlows = map[string][]string{ // what a real SERVER receives
 	"ecdhe":           {"CH", "CERT", "CKE", "CV", "CCS", "FIN"},
 	"resumed":         {"CH", "CCS", "FIN"},
 }
-var c08Alphabet = []string{"CH", "SH", "CERT", "SKX", "CR", "SHD", "CKE", "CV", "FIN", "CCS", "ALERTW", "APP"}
+var c08Alphabet = []string{"CH", "SH", "CERT", "SKX", "CR", "SHD", "CKE", "CV", "FIN", "CCS", "ALERTW", "APP", "APP0"}
 
 var (
 	c08Once  [2]sync.Once
